@@ -31,7 +31,7 @@ ASSUMPTIONS = [
   "all geoms overlap geometrically (verified per pair in float64 for the spheres / plane), so only the rules decide",
   "geom order inside a reported pair is not judged here (see C18: SAP broadphases may swap same-type geoms)",
 ]
-BUDGET = {"quick": 120, "thorough": 900}
+BUDGET = {"quick": 400, "thorough": 1800}
 
 
 def cases(tier, seed):
